@@ -419,6 +419,15 @@ func (w *World) afterStep(u *Upload, ev sim.Event) {
 	w.logf("put#%d failed: %v", u.N, err)
 	if u.Variant == "good" && u.DeliveredAll {
 		w.attempted[key] = append(w.attempted[key], u)
+		if w.deviceFaultsArmed() {
+			// With injected device faults an upload can fail AFTER its
+			// (correct, complete) data and index entry were written, e.g.
+			// when re-inserting a displaced index record fails. Such an
+			// object may legitimately be visible; the property's "failed
+			// uploads stay invisible" clause lists no medium faults.
+			w.acked[key] = append(w.acked[key], u)
+			w.Flags["failed_upload_possibly_visible_due_to_injected_fault"]++
+		}
 	}
 	code := status.Code(err)
 	ok := false
@@ -792,6 +801,15 @@ func (w *World) GetFromComposite(parent *Obj, instance string, cuts []int, want 
 	data, err := b.ToByteSlice(1 << 26)
 	if err != nil {
 		w.logf("composite parent=%d cuts=%v want=%d -> %v", parent.ID, cuts, want, err)
+		if sl.parent != nil {
+			// The slicer ran: index entries for some of the designated
+			// slices may have been created before the failure. They are
+			// exact slices of the parent.
+			for i := range sl.slices {
+				o := w.objForSlice(parent.Fn, sl.sliceDat[i])
+				w.derived[w.ModelKey(o, instance)] = sl.sliceDat[i]
+			}
+		}
 		return w.classifyReadErr("GetFromComposite", parent, instance, err, failsBefore)
 	}
 	w.logf("composite parent=%d cuts=%v want=%d -> %d bytes", parent.ID, cuts, want, len(data))
